@@ -5,7 +5,7 @@ import os, sys, json, subprocess, tempfile, shutil, time
 import main as M
 
 def run_range(sc, prop, seed, frm, to, procs, out):
-    env = dict(os.environ, VERIF_PROCS=str(procs // 1000 if procs >= 1000 else procs))
+    env = dict(os.environ, VERIF_PROCS=str(procs // 1000 if procs >= 1000 else procs), VERIF_PER_RUN="1")
     return subprocess.Popen([sc.bin, "-test.run", "TestWorker", "-test.timeout", "0", "-mode", "explore", "-prop", prop, "-seed", str(seed),
                              "-from", str(frm), "-to", str(to), "-samples", "0", "-out", out], env=env, stdout=subprocess.DEVNULL, stderr=subprocess.DEVNULL)
 
